@@ -426,6 +426,9 @@ class Sem:
             return fn('numcast:%s' % tys[0], R(a[0]))
         # everything else: an uninterpreted function of its arguments, named by method and Self type
         args = [R(x) if isinstance(x, Rat) else self._b2r(x) for x in a]
+        if krate_of(full) == 'az':
+            # az::*Cast<Dst>: the destination type is part of the scalar rule
+            return fn('%s::%s<%s>' % (trait, m, full.partition('<')[2].rstrip('>')), *args)
         return fn('%s::%s<%s>' % (trait or 'prim', m, ty), *args)
 
     # -------------------------------------------------------------- path conditions
@@ -444,6 +447,12 @@ class Sem:
             if (-1 - value) in (0, 1): return is1.neg() if (-1 - value) == 1 else is1
         if value >= 0: return eq(v, C(value))
         return ne(v, C(-1 - value))
+
+
+def krate_of(full):
+    b = full.split(':', 1)[1] if ':' in full else ''
+    if b.startswith('ext:'): b = b[4:]
+    return b.split(':', 1)[0]
 
 
 def sem_num(name, vals): return num_fn(name, vals)
